@@ -36,9 +36,11 @@ theorem fresh_not_preexisting (σ : St) (x : Var) (m : Bool) (b : BufId)
     (hb : b ∈ (get (σ.alloc x m).env x).all) : σ.next ≤ b := by
   cases m
   · have : b = σ.next := by simpa [St.alloc] using hb
-    omega
+    exact Nat.le_of_eq this.symm
   · have : b = σ.next ∨ b = σ.next + 1 := by simpa [St.alloc] using hb
-    omega
+    rcases this with h | h <;> rw [h]
+    · exact Nat.le_refl _
+    · exact Nat.le_succ _
 
 -- the hypothesis of `safe_sound` is satisfiable by a program that does write (into its own copy)
 example : safe [.asarray V.f V.field, .copy V.f V.f, .setItem V.f, .ret V.f] = true := by decide
@@ -133,11 +135,11 @@ theorem new_name_does_not_touch_field (c : Cfg) (h : c.storeNew = true) :
   have h3 : ∀ a b d, N.field ∉ storesOf (pSrfCall a true b d) := by decide
   refine ⟨?_, ?_, ?_⟩
   · show N.field ∉ storesOf (pTransform c.process c.fnIdentity c.storeNew c.save)
-    rw [h]; exact h1 ..
+    rw [h]; exact h1 _ _ _
   · show N.field ∉ storesOf (pFieldCall c.fieldGiven c.storeNew c.process c.save)
-    rw [h]; exact h2 ..
+    rw [h]; exact h2 _ _ _
   · show N.field ∉ storesOf (pSrfCall c.upscale c.storeNew c.process c.save)
-    rw [h]; exact h3 ..
+    rw [h]; exact h3 _ _ _
 
 /-- so the field stored under "field" survives a transform stored under a new name: same object, same contents -/
 theorem transform_new_name_keeps_field (c : Cfg) (h : c.storeNew = true) (σ : St)
@@ -219,11 +221,26 @@ theorem varioAxis_old_writes_mask :
 
 /-- …and the old code was harmless exactly where aliasing was impossible: an int / float32 / list input
     (not `f64`) is converted to a new array first -/
-theorem fieldCall_old_harmless_without_alias (σ : St) (h : (get σ.env V.field).f64 = false) (b : BufId)
+theorem fieldCall_old_harmless_without_alias (σ : St) (h : (get σ.env V.field).f64 = false) (b : Nat)
     (hb : b < σ.next) :
     (run σ (progOld .fieldCall { fieldGiven := true, process := true })).ver b = σ.ver b := by
-  simp [progOld, pFieldCall, setPos, postField_old, applyMNT_old, normCall, opt, run, step, h, St.alloc, St.bind,
-    St.write, Obj.arr, Obj.all]
-  split <;> split <;> simp [Obj.arr] <;> omega
+  -- split the program right after the conversion `np.asarray(field, dtype=double)`, which allocates here
+  have hsplit : progOld .fieldCall { fieldGiven := true, process := true }
+      = (setPos ++ [.asarray V.f V.field])
+        ++ ([.reshape V.f V.f] ++ postField_old V.f N.field true false ++ [.ret V.f]) := by decide
+  have hf1 : Frame σ.next σ (run σ setPos) := safe_frame (by decide) σ
+  have hfield : get (run σ setPos).env V.field = get σ.env V.field :=
+    run_env_other setPos σ V.field (by decide)
+  have hσ2 : run σ (setPos ++ [.asarray V.f V.field]) = (run σ setPos).alloc V.f := by
+    rw [run_append]
+    show (if (get (run σ setPos).env V.field).f64 = true then _ else _) = _
+    rw [hfield, h]; rfl
+  rw [hsplit, run_append, hσ2]
+  have hown : Owned σ.next [V.f] ((run σ setPos).alloc V.f) :=
+    owned_alloc ⟨hf1.next_le, fun _ hx => by cases hx⟩ V.f false
+  have hf2 := run_sound (n0 := σ.next)
+    ([.reshape V.f V.f] ++ postField_old V.f N.field true false ++ [.ret V.f]) hown (by decide)
+  have hf3 := frame_alloc σ.next (run σ setPos) V.f false
+  exact ((hf2.ver b hb).trans (hf3.ver b hb)).trans (hf1.ver b hb)
 
 end GSV.Props.C20
